@@ -787,4 +787,13 @@ func c13Generate(o *opts, stats map[string]int, sink func(line string)) {
 	}
 	g.compoundKeys(nKeys)
 	g.fieldToCases(nT)
+	// persists over store chains come last: the cases above keep their seeds
+	nPersist, nPersistHostile := 1600, 300
+	if o.thorough() {
+		nPersist, nPersistHostile = 60000, 10000
+	}
+	if o.n > 0 {
+		nPersist, nPersistHostile = o.n/2, o.n/8
+	}
+	g.c13xGenerate(nPersist, nPersistHostile)
 }
